@@ -169,19 +169,27 @@ def spec_scripts(tier, wd, seed):
             "behaviours_printed": len(hists), "wall_s": round(time.time() - t0, 1)}
     # liveness of the lifecycle part under fairness (small instance, no VIEW)
     with open(os.path.join(d, "MCL.tla"), "w") as f:
-        f.write('---- MODULE MCL ----\nEXTENDS Control\nSessDef == 0..1\nClassesDef == {"query", "await", "blank"}\nTransportsDef == {"unix"}\n====\n')
-    with open(os.path.join(d, "MCL.cfg"), "w") as f:
-        f.write("SPECIFICATION Spec\nCONSTANTS\n  Sess <- SessDef\n  Classes <- ClassesDef\n  MaxLines = 2\n  Transports <- TransportsDef\n"
-                "VIEW View\nINVARIANT DoneMeansGone\nPROPERTY StopCompletes\nCHECK_DEADLOCK FALSE\n")
-    p2 = subprocess.run(["tlc", "-workers", "4", "-metadir", os.path.join(d, "meta2"), "-noGenerateSpecTE", "-config", "MCL.cfg", "MCL.tla"],
-                        cwd=d, stdout=subprocess.PIPE, stderr=subprocess.STDOUT, text=True, timeout=3000)
-    shutil.rmtree(os.path.join(d, "meta2"), ignore_errors=True)
-    if "No error has been found" not in p2.stdout:
-        open(os.path.join(d, "MCL.out"), "w").write(p2.stdout)
-        raise common.MachineryError("TLC failed on Control (lifecycle liveness): %s" % p2.stdout[-1500:])
-    st2 = common.tlc_stats(p2.stdout)
-    info2 = {"config": "control_lifecycle_liveness", "states": st2[0], "transitions": st2[1], "property": "StopCompletes (fair)"}
-    return [h["hist"] for h in hists], [info, info2]
+        f.write('---- MODULE MCL ----\nEXTENDS Control\nSessDef == 0..1\nClassesDef == {"query", "await", "forever", "blank"}\nTransportsDef == {"unix"}\n====\n')
+    infos2 = []
+    for prop, expect_violation in (("StopCompletes", False), ("StopCompletesStrict", True)):
+        with open(os.path.join(d, "MCL.cfg"), "w") as f:
+            f.write("SPECIFICATION Spec\nCONSTANTS\n  Sess <- SessDef\n  Classes <- ClassesDef\n  MaxLines = 2\n  Transports <- TransportsDef\n"
+                    "VIEW View\nINVARIANT DoneMeansGone\nPROPERTY %s\nCHECK_DEADLOCK FALSE\n" % prop)
+        p2 = subprocess.run(["tlc", "-workers", "4", "-metadir", os.path.join(d, "meta2"), "-noGenerateSpecTE", "-config", "MCL.cfg", "MCL.tla"],
+                            cwd=d, stdout=subprocess.PIPE, stderr=subprocess.STDOUT, text=True, timeout=3000)
+        shutil.rmtree(os.path.join(d, "meta2"), ignore_errors=True)
+        violated = "Temporal properties were violated" in p2.stdout or ("Temporal property %s was violated" % prop) in p2.stdout
+        if not expect_violation and "No error has been found" not in p2.stdout:
+            open(os.path.join(d, "MCL.out"), "w").write(p2.stdout)
+            raise common.MachineryError("TLC failed on Control (lifecycle liveness): %s" % p2.stdout[-1500:])
+        if expect_violation and not violated:
+            open(os.path.join(d, "MCL.out"), "w").write(p2.stdout)
+            raise common.MachineryError("Control model no longer exhibits KF-L (StopCompletesStrict not violated): %s" % p2.stdout[-800:])
+        st2 = common.tlc_stats(p2.stdout)
+        infos2.append({"config": "control_lifecycle_liveness", "states": st2[0], "transitions": st2[1],
+                       "property": prop + (" (fair): violated by the model of the code as written, as expected - known finding KF-L"
+                                           if expect_violation else " (fair): holds")})
+    return [h["hist"] for h in hists], [info] + infos2
 
 
 def session_jobs(tier, wd, seed, refs):
